@@ -13,7 +13,29 @@ spec:      spec/ListView.tla      reference: token layouts, Split (reference rea
                                   two handles on one field / two fields / two parses of the same text / both
                                   interpretations of one field, nested with-blocks, the same object entered again,
                                   ValueReferences held across other edits; Isolation, DocLocal checked by TLC for
-                                  all interleavings of two handles, negative control SharedTokenCache
+                                  all interleavings of two handles, negative control SharedTokenCache; WriteBack
+                                  (every round of one object is written, also a round that edits the list back to a content
+                                  the object held before), negative control StaleSnapshot (MC_ListViewMulti_neg_stale.cfg)
+history shapes (round 6): ONE list object is used for several rounds -- ListView!AReenter / ListViewMulti!Reenter1: the
+           recorded executions enter the same object again after close / abort / a refused or faulted close (40 % of
+           the follow-up with-blocks, 85 % after a failure), and 70 % of those rounds edit the list BACK to a content the
+           object held when it was made or when it was left earlier (undo_step: replace / reference assignment /
+           remove / reference removal / append), single-view and multi-view leg alike.  REFUSED values are ordinary
+           steps (ListView!ARefuse, ListViewImpl!Refused1, ListViewMulti!Bad1): append / replace / reference
+           assignment with a text that is not a single item (bad_value: 2..100 items joined by the separator in
+           several spellings, separators or blanks at either end, empty, blank, bare newline, second line without
+           continuation) in TLC's cases (badappend / badreplace / badrefset followed by any other call), in the
+           recorded executions (22 % of those calls) and between the calls of other views, fields and documents in
+           the multi-view legs.  Verdict for the refused call: an exception, nothing changes; if the code ACCEPTS such
+           a text the list is unspecified and the execution is only validated up to there (today: comma words may hold a
+           newline, "a\nb" is accepted as one value -- not generated).  Then the history carries on.
+faults of caller-supplied objects (notes/SIZE_STRESS.md part 5): the only caller-supplied object a list view CALLS is the
+           formatter of value_formatter(f).  vfmtx / vfmtxf install a faulting twin of the stock formatter (raises when
+           called / at the k-th token pulled / after the k-th piece yielded / at the very end; OSError, ValueError,
+           KeyError, RuntimeError, a private class; k beyond the input = behaves as the stock one).  TraceListView:
+           leaving may end with "Fault" (the very exception object the formatter raised) only while that formatter is
+           installed, nothing is written, the object keeps its list; the same object is then entered again, usually
+           repaired (value_formatter(stock) / no_reformatting_when_finished) and must write its edits.
 binding:   (a) CASE lines printed by TLC (layout, edit sequence, expected list after each call, expected
                outcome of leaving the with-block, predicted text) replayed on real documents through
                paragraph.as_interpreted_dict_view(LIST_*_INTERPRETATION)
@@ -66,7 +88,10 @@ handles of the multi-view legs are created through different entry points and li
   obj.__exit__(None, None, None)
   with-block left by an exception / __exit__(exc_type, exc, tb)           "abort": every 10th replayed concretization, 12 % of
                                                                           the trace sessions, Abort1 in the multi legs
-  the same object entered again                                           multi legs (reenter)
+  the same object entered again                                           reenter: recorded traces (single view, 40 % of the follow-up
+                                                                          blocks) and multi legs, with rounds that cancel earlier ones
+  append / replace / ref.value = <text that is not a single item>         bad* steps in all legs: refused, nothing changes, carry on
+  value_formatter(f) with a caller's f that raises                        vfmtx / vfmtxf in recorded traces ("Fault" on leaving)
   list(lst), iteration, lst.value_parts (+ convert_to_text[_without_      read variants 0-3, rotating after EVERY call; bool(lst)
   comments]), [r.value for r in lst.iter_value_references()], bool(lst)   is compared on every read
   append(v) / append_value(element)                                       all legs; every 3rd append goes through append_value
@@ -92,8 +117,9 @@ exception raised for remove/replace of an absent value and for a double append_n
 Unspecified: leaving the with-block with an EMPTY list (the code refuses with ValueError, except that after
 append_separator it writes ", " and with reformat_when_finished a field without content that the list view
 cannot read any more -- reproduced by the model with 3 calls, reported, outside the statement's edits): only
-the document level is checked.  Not generated: empty list fields ("F:\\n": the views assert content), new values that are not a single item of the interpretation (blanks in a
-space list, commas, leading '#', newlines, empty string); append_separator on a space list; sort.
+the document level is checked.  A text that is not a single item of the interpretation and is ACCEPTED (none today but
+"a\\nb" on a comma list, which is not generated): the execution ends there.  Not generated: empty list fields ("F:\\n":
+the views assert content), NEW values with a leading '#' in the replay leg; append_separator on a space list; sort.
 """
 import json
 import re
@@ -105,7 +131,7 @@ import multi_c11 as multi
 MANIFEST = dict(
     technique="TLA+ spec (ListView reference: layout automaton, Split reader, list semantics; ListViewImpl: token-list layer transcribed from Deb822ParsedTokenList) model-checked by TLC over all bounded layouts x edit sequences; TLC-emitted cases replayed into as_interpreted_dict_view; recorded executions validated by TLC (TraceListView)",
     text="A field value is modelled as a sequence of layout tokens (word, comma, blanks, newline, continuation blank, comment line). TLC enumerates every well-formed layout within the bounds for the whitespace- and the comma-separated interpretation (trailing and leading separators, comment lines anywhere, values continuing over lines with comment lines inside, tab continuation) and every sequence of append/remove/replace/value-reference/append_separator/append_newline/append_comment/reformat calls, and checks that the transcribed token-list algorithm reads exactly the reference split, writes back an untouched list identically, and after edits writes a syntactically valid field that re-reads as the edited list. The binding is two-way: cases printed by TLC (with the expected list after every call and the expected outcome of leaving the with-block) are replayed on real documents with concretized words, blanks and comments, and random executions on much longer layouts with several with-blocks are recorded and validated by TLC against the reference list semantics.",
-    note="Several views at once (ListViewMulti: isolation between handles, fields, documents with the same text, held ValueReferences; two writers on one field / the other interpretation after a write / empty lists are unspecified) and a size dimension of the concretization (boundary lengths, lists up to 1000 values, 100+ comment/continuation lines, 200 consecutive edits) were added in the hardening rounds. Small scope: layouts up to 3 words/7 tokens x 2 calls (quick), 4 words/9 tokens x 2 calls (thorough) (tokens are finer than in DESIGN.md: newline and continuation blank are separate and the final newline counts); concretization of words/blanks/comments is sampled. Removing the only value is modelled as the code does (ValueError on leaving, document untouched). Trusted: TLC, the concretizer, the projections list(view), dump(), byte comparison of the text around the field.",
+    note="Several views at once (ListViewMulti: isolation between handles, fields, documents with the same text, held ValueReferences; two writers on one field / the other interpretation after a write / empty lists are unspecified) and a size dimension of the concretization (boundary lengths, lists up to 1000 values, 100+ comment/continuation lines, 200 consecutive edits) were added in the hardening rounds; round 6 added histories that use ONE list object for several with-blocks (rounds that cancel earlier rounds, re-entry after refused/faulted closes), refused values (texts that are not a single item) as ordinary steps in all legs, and a caller-supplied formatter that raises. Small scope: layouts up to 3 words/7 tokens x 2 calls (quick), 4 words/9 tokens x 2 calls (thorough) (tokens are finer than in DESIGN.md: newline and continuation blank are separate and the final newline counts); concretization of words/blanks/comments is sampled. Removing the only value is modelled as the code does (ValueError on leaving, document untouched). Trusted: TLC, the concretizer, the projections list(view), dump(), byte comparison of the text around the field.",
     design="5 (C11)")
 
 SP, NL, CT, CTS, CM, SEP = -1, -2, -3, -4, -5, -6
@@ -663,7 +689,21 @@ def run_case(ctx, case, conc, drift=None):
     for k, e in enumerate(case["ops"]):
         v = conc.enc_value(e["v"], enc) if e["v"] else None
         w = conc.enc_value(e["w"], enc) if e["w"] else None
-        r = call(lst, e["op"], v, w, e["i"], conc.idioms + k, mode)
+        if e["op"].startswith("bad"):
+            # a text that is not a single item of the interpretation (drawn reproducibly from the concretization):
+            # refused by SOME exception, nothing changes (ListView!ARefuse) -- the history then carries on
+            import random
+            real = e["op"][3:]
+            w = bad_value(random.Random("%d/%d/%s" % (conc.idioms, k, conc.value_text()[:40])), mode, list(conc.word.values()))
+            r = call(lst, real, w if real == "append" else v, w, e["i"])
+            if r == "ok":
+                if drift is not None:
+                    drift("%s(%r) accepted on a %s list: unspecified, the case ends here" % (real, w[:60], mode))
+                s.leave(True)
+                return None
+            r = e["r"]
+        else:
+            r = call(lst, e["op"], v, w, e["i"], conc.idioms + k, mode)
         where = "call %d %s(%s)" % (k + 1, e["op"], ", ".join(repr(x) for x in (v, w, e["i"] or None) if x is not None))
         absent = e["op"] in ("remove", "replace") and e["r"] == "ValueError"
         if r != e["r"]:
@@ -763,7 +803,8 @@ def bad_value(rng, mode, words):
     if mode == "cm":
         inner = [lambda: many(", "), lambda: many(","), lambda: many(" , "), lambda: many(",\n "), lambda: w() + ",," + w(),
                  lambda: w() + "\n ," + w(), lambda: many(", ") + ","]
-        edge = [lambda: w() + ",", lambda: ", " + w(), lambda: ",", lambda: "", lambda: " ", lambda: "\n", lambda: w() + "\n" + w(),
+        # (not here: "a\nb" -- the comma tokenizer takes a newline INSIDE a word, such a text is accepted as one value)
+        edge = [lambda: w() + ",", lambda: ", " + w(), lambda: ",", lambda: "", lambda: " ", lambda: "\n",
                 lambda: " " + w(), lambda: w() + " ", lambda: w() + "\n", lambda: "\t" + w(), lambda: "," * n,
                 lambda: w() + "\n# x, y\n"]
     else:
@@ -942,9 +983,11 @@ def record_trace(rng, mode, nwords, nsessions, nops, script=None, lay=None, forc
     events, script_out = [], []
     unspecified = []
     stop = False
+    undo_rounds = 0
     doc_names = read_field(text, mode, conc.field)[1]
     cur = text
     s = None
+    last_r = "ok"
     snaps = []                # what the CURRENT list object showed when it was made and each time it was left
     faulted = False
     for sn in range(nsessions if sessions is None else len(sessions)):
@@ -976,8 +1019,8 @@ def record_trace(rng, mode, nwords, nsessions, nops, script=None, lay=None, forc
             break
         events.append({"op": "reenter" if reuse else "open", "v": [], "w": [], "i": 0, "res": "ok", "obs": [code_of(x) for x in opened], "doc": "ok"})
         calls = []
-        n = (len(force) if force is not None else rng.randint(0, nops)) if plan is None else len(plan)
-        if reuse and plan is None and rng.random() < 0.7:
+        n = (len(force) if force is not None else rng.randint(1 if (reuse and last_r == "Fault") else 0, nops)) if plan is None else len(plan)
+        if reuse and plan is None and last_r != "Fault" and rng.random() < 0.7:
             # a round whose edits CANCEL earlier rounds: back to a content this object held before
             older = [x for x in snaps if x != opened]
             if older:
@@ -993,6 +1036,7 @@ def record_trace(rng, mode, nwords, nsessions, nops, script=None, lay=None, forc
             elif undo is not None:
                 c = undo_step(rng, now, undo)
                 if c is None:
+                    undo_rounds += list(now) == list(undo)
                     break
             else:
                 op = rng.choice(["append"] * 4 + ["remove"] * 3 + ["replace"] * 2 + ["refset", "refremove", "refremove",
@@ -1001,6 +1045,8 @@ def record_trace(rng, mode, nwords, nsessions, nops, script=None, lay=None, forc
                 where = None
                 if force is not None:
                     op, _, where = force[k].partition("@")
+                elif k == 0 and reuse and last_r == "Fault" and rng.random() < 0.7:
+                    op = rng.choice(["vfmt", "vfmtf", "noreformat"])      # the caller repairs the formatter and tries again
                 c = {"op": op, "v": None, "w": None, "i": 0, "var": rng.randrange(120)}
                 if force is None and op in ("append", "replace", "refset") and rng.random() < 0.22 and (now or op == "append"):
                     # the same call with a text that is not a single item: refused (ListView!ARefuse), then carry on
@@ -1064,7 +1110,7 @@ def record_trace(rng, mode, nwords, nsessions, nops, script=None, lay=None, forc
                 if isbad and r == "ok":
                     # a text that is not a single item was ACCEPTED: what the list then is, is unspecified -- the
                     # execution ends here and is validated up to the call before
-                    unspecified.append("%s(%r) accepted on a %s list" % (c["op"], newv, mode))
+                    unspecified.append("%s(%r) accepted on a %s list" % (c["op"], newv[:60], mode))
                     calls.pop()
                     stop = True
                     break
@@ -1085,6 +1131,7 @@ def record_trace(rng, mode, nwords, nsessions, nops, script=None, lay=None, forc
         ab = (rng.random() < 0.12 and force is None) if sessions is None else bool(sessions[sn].get("abort"))
         r = s.leave(ab)
         faulted = r != "ok"
+        last_r = r
         if not ab:
             snaps.append(list(last_obs[0]))
         after = s.dump()
@@ -1113,7 +1160,7 @@ def record_trace(rng, mode, nwords, nsessions, nops, script=None, lay=None, forc
         if doc != "ok" or readable != "ok":
             break
         cur = after
-    return {"mode": mode, "keep": bool(keep), "lay": lay, "events": events, "unspecified": unspecified,
+    return {"mode": mode, "keep": bool(keep), "lay": lay, "events": events, "unspecified": unspecified, "undo_rounds": undo_rounds,
             "script": {"conc": conc.to_json(), "sessions": script_out, "keep": bool(keep)}, "text": text, "final": cur}
 
 
@@ -1194,7 +1241,8 @@ def run(ctx):
     rng = ctx.rng
     ctx.assumptions += [
         "layout tokens: word, comma, blanks, newline, continuation blank, comment line; bounds quick: <=3 words/7 tokens/1 comment line x 2 calls; thorough: <=4 words/9 tokens/2 comment lines x 2 calls and <=2 words/6 tokens x 3 calls (the final newline counts as a token); replayed cases: a 1/64 (quick, at most 3000 cases) or 1/4 (thorough) slice of the layouts <=3 words/7 tokens x 2 calls chosen by the seed, plus every layout with a comment line inside a value",
-        "new values are single items of the interpretation (no blanks in a space list, no comma, no leading '#', no newline); append_separator on a space list and sort are not exercised",
+        "valid new values are single items of the interpretation (no leading '#'); texts that are NOT a single item (inner separators with text on both sides, blanks/separators at the ends, empty, bare newline) are handed in as ordinary steps and must be refused without any effect on this or a later call -- if one is accepted the execution is unspecified from there; append_separator on a space list and sort are not exercised",
+        "one list object is entered several times (after close, abort, refused and faulted closes), with rounds that edit the list back to an earlier content; a caller-supplied formatter that raises: its exception object comes out of __exit__, nothing is written, the object keeps its edits and writes them in a later round",
         "removing the only value: modelled as the code does (ValueError on leaving the with-block, document untouched)",
         "remove/replace of an absent value and append_newline after a newline: only 'the list does not change' is a verdict, the exception is a diagnostic",
         "several views at once: what a view shows depends only on the calls made on it; two writers on one field, what the other interpretation reads after a write, and empty lists are unspecified (document-level checks only); a ValueReference whose value was removed must fail (not generated in replay); a partially consumed iter_value_references() is closed before the list is edited",
@@ -1222,6 +1270,10 @@ def run(ctx):
                 if r.violated != "Isolation":
                     raise core.MachineryError("negative control SharedTokenCache: expected Isolation to fail, TLC says %r" % r.violated)
                 neg["shared-token-cache"] = r.violated
+                r = ctx.tlc("ListViewMulti", "MC_ListViewMulti_neg_stale.cfg", count=False, workers=2)
+                if r.violated != "WriteBack":
+                    raise core.MachineryError("negative control StaleSnapshot: expected WriteBack to fail, TLC says %r" % r.violated)
+                neg["stale-snapshot"] = r.violated
                 design["neg"] = neg
         except BaseException as e:      # re-raised in the main thread
             design["error"] = e
@@ -1304,6 +1356,19 @@ def run(ctx):
                           "recorded execution on field text %r not explained by ListView: event %d %s (after %d accepted events)"
                           % (Conc.from_json(t["script"]["conc"]).value_text(), at + 1, json.dumps(ev), at))
         ctx.extra["traces_recorded"] = len(traces)
+        evs = [e for t in traces for e in t["events"]]
+        ctx.extra["trace_history_shapes"] = {
+            "refused_values": sum(1 for e in evs if e.get("bad")),
+            "valid_calls_right_after_a_refused_value": sum(1 for t in traces for a, b in zip(t["events"], t["events"][1:])
+                                                           if a.get("bad") and not b.get("bad") and b["op"] in ("append", "replace", "refset", "open", "close")),
+            "same_object_entered_again": sum(1 for e in evs if e["op"] == "reenter"),
+            "rounds_back_to_an_earlier_content": sum(t.get("undo_rounds", 0) for t in traces),
+            "faulty_formatter_installed": sum(1 for e in evs if e["op"] in ("vfmtx", "vfmtxf")),
+            "leaving_raised_the_callers_fault": sum(1 for e in evs if e["op"] == "close" and e["res"] == "Fault"),
+            "refused_value_accepted_(unspecified,_trace_cut)": sum(len(t.get("unspecified", [])) for t in traces)}
+        for t in traces:
+            for u in t.get("unspecified", [])[:1]:
+                ctx.drift("trace: " + u)
         ctx.extra["traces_rejected"] = len(rejected)
         ctx.extra["trace_events"] = sum(len(t["events"]) for t in traces)
         ctx.extra["trace_max_values"] = max(len(e["obs"]) for t in traces for e in t["events"])
@@ -1321,14 +1386,19 @@ def run(ctx):
         ctx.sample("multi-view trace: " + json.dumps([[e["op"], e["h"], e["d"], e["f"], e["m"], e["res"], e["all"]]
                                                       for e in mtraces[0]["events"][:6]], separators=(",", ":")))
         ctx.extra["multi"] = {"traces_recorded": len(mtraces), "traces_rejected": len(mrej),
-                              "events": sum(len(t["events"]) for t in mtraces)}
+                              "events": sum(len(t["events"]) for t in mtraces),
+                              "refused_values": sum(1 for t in mtraces for e in t["events"] if e["op"].startswith("bad")),
+                              "same_object_entered_again": sum(1 for t in mtraces for e in t["events"] if e["op"] == "reenter")}
         # 2. spec -> code: cases printed by TLC (emitted in the background meanwhile)
         threads[1].join()
         if "error" in design:
             raise design["error"]
         cases = design["cases"]
-        if quick and len(cases) > 3000:      # keep the budget: values that run over several lines first
-            cases = sorted(cases, key=lambda c: not any(len(v) > 1 for v in c["v0"]))[:3000]
+        if quick and len(cases) > 3600:      # keep the budget: values that run over several lines first, of the
+            first = [c for c in cases if any(len(v) > 1 for v in c["v0"])][:1800]      # others a sample drawn by the seed
+            rest = [c for c in cases if not any(len(v) > 1 for v in c["v0"])]
+            keep = set(rng.sample(range(len(rest)), min(len(rest), 3600 - len(first))))
+            cases = first + [c for i, c in enumerate(rest) if i in keep]
         per_op = {}
         nconc = 1
         for ci, case in enumerate(cases):
